@@ -107,7 +107,7 @@ def typed_eq(a, b):
 
 ATOMS_PLAIN = [None, True, False, 0, 1, 2, 3, -1, 10, 0.5, 1.5, 2.5, -0.5, "a", "b", "c", "", "ab", "x y", b"a", b"", b"ab"]
 ATOMS_ALIAS = [0, False, 0.0, 1, True, 1.0, 2, 2.0]   # py_eq but not identical
-STR_POOL = ["a", "b", "c", "d", "", "ab", "ba", "A", "aB", "x y", "k1", "k2", "0", "1"]
+STR_POOL = ["a", "b", "c", "d", "", "ab", "ba", "A", "aB", "x y", "k1", "k2", "0", "1", "old_value", "new_value"]
 
 
 def gen_atom(rng, alias=False, strings=None):
